@@ -85,3 +85,11 @@ Theorem C05_one_spline_route : forall shortest fit mk_inner g e ns pts, shortest
   spline_shape (start_point g (e_from (gedge g e))) (end_point g (e_to (gedge g e))) pts.
 Proof. intros shortest fit mk_inner g e ns pts SO FO. exact (spline_route_shape shortest fit mk_inner SO FO g e ns pts). Qed.
 Print Assumptions C05_one_spline_route.
+
+(* ---------- with the OTHER ordering option, autog.OrderingNoop (Model/PipelineNoop.v: [layout_n bk] is Layout with the
+   bands kept in the order of the layering, every positioner; Proofs/NoopPipeline*.v) ---------- *)
+From Autog Require Import PipelineNoop NoopPipeline NoopPipeline2.
+Theorem C05_component_end_to_end_noop_ordering : forall bk o g g' x, component_input g -> modelled_p5 (o_p5 o) ->
+  layout_component_n bk o g = Ok (g', x) -> E3_statement g g'.
+Proof. exact Gn3_endpoints_any. Qed.
+Print Assumptions C05_component_end_to_end_noop_ordering.
